@@ -12,7 +12,7 @@ use crate::reference::{
 use crate::rng::{mix, Rng};
 use crate::run::{run_case, Ctor, Draw, Item, IterHist, Load, RKind, RunOut, StaticHist, StaticItem};
 
-pub const N_FAULT_KINDS: usize = 28;
+pub const N_FAULT_KINDS: usize = 30;
 pub const FAULT_NAMES: [&str; N_FAULT_KINDS] = [
     "-",
     "F1_driver_error_in_constructor",
@@ -42,6 +42,8 @@ pub const FAULT_NAMES: [&str; N_FAULT_KINDS] = [
     "F25_static_rows_requested_before_dynamic_run",
     "F26_device_lists_an_output_the_test_does_not_know",
     "F27_caller_spreads_parse_construct_next_vars_over_os_threads",
+    "F28_same_threads_ran_another_test_before",
+    "F29_driver_rewrites_one_signal_table_in_place",
 ];
 
 #[derive(Clone, Debug)]
@@ -300,6 +302,28 @@ fn knobs_for(prop: Prop, sub: u64, tier: Tier, rng: &mut Rng) -> Knobs {
             };
             k.value_fault_pct = 20;
             k.continue_pct = 10;
+            if sub % 6 == 5 {
+                // variables (top-level lets, loop counters) named like a device output whose
+                // answers come from a tiny set or count in step with the loop: the device
+                // regularly answers exactly the value the variable of that name holds
+                k.shadow_outputs = true;
+                k.w_loop = 4;
+                k.w_let = 3;
+                k.n_out = (1, 2);
+                k.n_bidir = (0, 0);
+                k.w_beh_tagged = 0;
+                k.w_beh_counter = 4;
+                k.w_beh_const = 1;
+                k.table = TableW {
+                    small: 10,
+                    byte: 0,
+                    fit: 0,
+                    boundary: 0,
+                    z: 1,
+                    x: 0,
+                };
+                k.w_layout = [4, 2, 0, 0];
+            }
         }
         Prop::C04 => {
             k.probe_inputs = true;
@@ -363,6 +387,13 @@ fn knobs_for(prop: Prop, sub: u64, tier: Tier, rng: &mut Rng) -> Knobs {
             }
             if rng.chance(4, 5) {
                 k.w_in_c = keep.1;
+            }
+            if sub % 5 == 2 {
+                // a driver that fails in the middle of an expansion and a caller that keeps
+                // going: the rows that are still pending are the prescribed ones (the rest of
+                // the clock triple, the remaining X assignments)
+                k.driver_error_pct = 70;
+                k.continue_pct = 100;
             }
         }
         Prop::C06 => {
@@ -647,6 +678,7 @@ fn corpus_case(prop: Prop, rng: &mut Rng) -> Option<Case> {
             layout,
             seed: rng.next_u64(),
             overrides_write: rng.chance(1, 2),
+            in_place: false,
             faults: vec![],
         }],
         schedule: vec![Action::Construct(0), Action::Run(0)],
@@ -665,6 +697,7 @@ fn corpus_case(prop: Prop, rng: &mut Rng) -> Option<Case> {
         source_override: Some(t.source.clone()),
         dig_file: Some(t.file.clone()),
         thread_seed: None,
+        prelude: vec![],
     };
     if matches!(prop, Prop::C02 | Prop::C10) && rng.chance(1, 3) {
         let probe = run_case(&case);
@@ -741,6 +774,7 @@ fn huge_env_case(rng: &mut Rng) -> Case {
             layout: vec![(q, SigBeh::Counter(0, 1))],
             seed: rng.next_u64(),
             overrides_write: rng.chance(1, 2),
+            in_place: false,
             faults: vec![],
         }],
         schedule: vec![Action::Construct(0), Action::Run(0)],
@@ -755,18 +789,74 @@ fn huge_env_case(rng: &mut Rng) -> Case {
         source_override: None,
         dig_file: None,
         thread_seed: None,
+        prelude: vec![],
     }
 }
 
 pub fn generate(prop: Prop, run_seed: u64, tier: Tier) -> Case {
     let mut case = generate_on_one_thread(prop, run_seed, tier);
-    // F27: one case in twelve is executed by a multi-threaded caller. Drawn from a stream of
+    // F27: one case in 128 is executed by a multi-threaded caller. Drawn from a stream of
     // its own so that the cases themselves are the same as without this fault kind.
     let t = mix(&[run_seed, 0x7153_AD27]);
-    if t % 12 == 0 && case.program.stmts.len() <= 20_000 {
+    let small = case.program.stmts.len() <= 20_000;
+    // F29: one device in eight keeps a single table of signals and rewrites it for every
+    // answer, so the entries of all its answers live at the same addresses
+    if mix(&[run_seed, 0x7153_AD29]) % 8 == 0 {
+        for d in &mut case.duts {
+            d.in_place = true;
+        }
+    }
+    if t % 128 == 0 && small {
         case.thread_seed = Some(mix(&[t, 1]));
     }
+    // F28: one case in 128 starts on threads that have run another test before: an unrelated
+    // test of the same family, or a close relative of this very test (same text bound to the
+    // signal list in reverse order and driven by a device with other values; or the same
+    // configuration and device with every declared expression changed).
+    let u = mix(&[run_seed, 0x7153_AD28]);
+    if u % 128 == 0 && small {
+        let mut prelude = match (u >> 8) % 4 {
+            0 | 1 => generate_on_one_thread(prop, mix(&[u, 2]), tier),
+            2 => {
+                let mut p = case.clone();
+                p.signals.reverse();
+                for d in &mut p.duts {
+                    d.seed = mix(&[d.seed, 3]);
+                }
+                p
+            }
+            _ => {
+                let mut p = case.clone();
+                bump_declares(&mut p.program.stmts);
+                p
+            }
+        };
+        if prelude.program.stmts.len() <= 20_000 {
+            prelude.thread_seed = match (u >> 12) % 3 {
+                0 => None,
+                1 => case.thread_seed,
+                _ => Some(mix(&[u, 4])),
+            };
+            prelude.prelude.clear();
+            prelude.max_steps = prelude.max_steps.min(96);
+            prelude.reparse.clear();
+            case.prelude.push(prelude);
+        }
+    }
     case
+}
+
+fn bump_declares(stmts: &mut [Stmt]) {
+    for s in stmts {
+        match s {
+            Stmt::Declare(_, e) => {
+                let old = std::mem::replace(e, Expr::Num(0));
+                *e = Expr::Bin(BinOp::Add, Box::new(old), Box::new(Expr::Num(1)));
+            }
+            Stmt::Loop(_, _, body) | Stmt::While(_, body) => bump_declares(body),
+            _ => {}
+        }
+    }
 }
 
 fn generate_on_one_thread(prop: Prop, run_seed: u64, tier: Tier) -> Case {
@@ -992,6 +1082,7 @@ fn c03_shape(case: &mut Case, rng: &mut Rng) {
         layout,
         seed: rng.next_u64(),
         overrides_write: rng.chance(1, 2),
+        in_place: false,
         faults: vec![],
     });
     case.entropy.push(rng.next_u64());
@@ -1074,6 +1165,8 @@ pub fn reference_for(case: &Case, out: &RunOut, iter_idx: usize) -> RefRun {
 }
 
 fn count_faults(case: &Case, out: &RunOut, f: &mut [u32; N_FAULT_KINDS]) {
+    f[28] += case.prelude.len() as u32;
+    f[29] += case.duts.iter().filter(|d| d.in_place).count() as u32;
     if case.thread_seed.is_some() {
         // actions (constructor, next()) that ran on another OS thread than the caller's own
         for (i, it) in out.iters.iter().enumerate() {
